@@ -177,6 +177,11 @@ EXTRA = [
     "def nada_main():\n    p = Party(name='P')\n    y = h(Integer(3))\n    z = [y]\n    return []\n",
     "from nada_dsl import *\nbase: int = 5\ndef nada_main():\n    p = Party(name='P')\n    y = base + 1\n    return []\nbase: str = 'five'\n",
     "from nada_dsl import *\nn = 'a'\ndef nada_main():\n    p = Party(name='P')\n    y = n\n    z = [y]\n    return []\nfor n in range(2):\n    m = n\n",
+    # two programs audited one after the other: the second calls a helper and reads a module-level variable that only the first defines
+    "from nada_dsl import *\nSCALE = Integer(3)\ndef weighted(x: SecretInteger) -> SecretInteger:\n    return x * SCALE\n"
+    "def nada_main():\n    p = Party(name='P')\n    a = SecretInteger(Input(name='a', party=p))\n    y = weighted(a)\n    return [Output(y, 'o', p)]\n",
+    "from nada_dsl import *\ndef nada_main():\n    p = Party(name='P')\n    a = SecretInteger(Input(name='a', party=p))\n    y = weighted(a)\n    z = [y]\n    return [Output(y, 'o', p)]\n",
+    "from nada_dsl import *\ndef nada_main():\n    p = Party(name='P')\n    a = SecretInteger(Input(name='a', party=p))\n    y = a * SCALE\n    z = [y]\n    return [Output(y, 'o', p)]\n",
     # a definition that rebinds a module-level name other functions were typed with; the library imported again after a helper took a name
     "from nada_dsl import *\nK = 1\ndef g() -> int:\n    return K\ndef K() -> int:\n    return 2\ndef nada_main():\n    p = Party(name='P')\n    y = g()\n    z = [y]\n    return []\n",
     "from nada_dsl import *\ndef f(a: Integer) -> Integer:\n    return a\ndef g(a: Integer) -> Integer:\n    return f(a)\ndef f(a: Integer) -> str:\n    return 's'\n"
@@ -244,6 +249,9 @@ def run(res, tier):
         m_ = _re.search(r"^def (h\d+|helper|total|twice)\(.*?\n(?:    .*\n)+", src, flags=_re.M)
         if m_ and rng.random() < 0.5:
             sources.append(("helper-removed", src[:m_.start()] + src[m_.end():]))
+        if m_ and rng.random() < 0.5:
+            # ... and without any of them (a name a later program defines again is a new definition, not a second one)
+            sources.append(("helpers-removed", _re.sub(r"^def (?!nada_main)\w+\(.*?\n(?:    .*\n)+", "", src, flags=_re.M)))
     for mode, src in sources:
         try:
             v, clean, recorded = judge(src)
